@@ -489,7 +489,7 @@ def run(chk):
         chk.count((name, kind, cname, out))
     chk.evaluations = total
     chk.extra["verify_calls_skipped_as_valid_but_expensive"] = skipped_expensive[0]
-    wd = VERIF / "out" / "work" / "C08_trace_in"
+    wd = tlc.WORK / "C08_trace_in"
     wd.mkdir(parents=True, exist_ok=True)
     (wd / "events.json").write_text(json.dumps([{k: v for k, v in e.items() if not k.startswith("_") and k != "hasher"} for e in events]))
     r = tlc.run("Trace_HashFormat", "INIT Init\nNEXT Next\n", name="C08_trace", workers=1, env={"TRACE_FILE": str(wd / "events.json")}, coverage=False, timeout=3000)
